@@ -42,10 +42,31 @@ func TestC02CoreSampled(t *testing.T) {
 		fs := sim.DrawFateScript(rt, opts)
 		app := drawCoreApps(rt, cfg, 25, 60_000)
 		retunes := drawCoreRetunes(rt, cfg)
+		// a tuning call at a moment the state chooses: the receive window is
+		// enlarged just when the delivery queue is full and in-order segments
+		// wait behind it (the application noticed it is falling behind)
+		growMul := rapid.SampledFrom([]int{0, 0, 2, 8}).Draw(rt, "growWhenFull")
+		grown := 0
 		var st sim.CoreStats
 		rapid.SyncTest(rt, func(rt *rapid.T) {
 			s := sim.NewCoreSim(cfg, fs, app)
 			s.Ops = coreRetuneOps(retunes)
+			if growMul > 0 {
+				var done [2]bool
+				s.OnStep = func(what string, ep int) error {
+					for e := 0; e < 2; e++ {
+						if done[e] {
+							continue
+						}
+						if v := s.K[e].VerifState(false); v.RcvQueue >= int(v.RcvWnd) && v.RcvBuf > 0 {
+							s.K[e].WndSize(int(v.SndWnd), int(v.RcvWnd)*growMul)
+							done[e] = true
+							grown++
+						}
+					}
+					return nil
+				}
+			}
 			err := runUntilDrained(s, cfg, fs, app)
 			st = s.Stats
 			if err == errScriptUnfinished {
@@ -53,7 +74,7 @@ func TestC02CoreSampled(t *testing.T) {
 				err = nil
 			}
 			if err != nil {
-				rt.Fatalf("C02 (raw core): %v\ntuning calls in mid-connection: %+v\ncase: %+v", err, retunes, describeCore(cfg, fs, app))
+				rt.Fatalf("C02 (raw core): %v\ntuning calls in mid-connection: %+v; receive window x%d when the delivery queue was full (%d time(s))\ncase: %+v", err, retunes, growMul, grown, describeCore(cfg, fs, app))
 			}
 		})
 		cl := coreClasses(&st)
@@ -72,8 +93,11 @@ func TestC02CoreSampled(t *testing.T) {
 				break
 			}
 		}
+		if grown > 0 {
+			cl = append(cl, "receive_window_grown_while_queue_full")
+		}
 		nontrivial := (st.LostPush > 0 && st.LostAck > 0) || len(fs.Outages) > 0
-		rec.Case(hx.Hash64(cfg, fs.Describe(), app, retunes), nontrivial, cl...)
+		rec.Case(hx.Hash64(cfg, fs.Describe(), app, retunes, growMul), nontrivial, cl...)
 		if rec.WantSample() {
 			d := describeCore(cfg, fs, app)
 			d["stats"] = st
